@@ -23,7 +23,8 @@ RULE = (
 )
 ASSUMPTIONS = ["responder model follows the check precedence given in the statement of C16"]
 FLOORS = {"quick": {"messages": 12000, "decision_classes": 4400, "replies_decoded": 5000,
-                    "multicast_silent": 1000, "multi_message_datagrams": 300}}
+                    "multicast_silent": 1000, "multi_message_datagrams": 300,
+                    "datagrams_handled_with_debug_logging_on": 5000, "datagrams_handled_with_debug_logging_off": 5000}}
 
 SID, MAJ, MINOR = 0x1234, 3, 7
 M_BYTES, M_EMPTY, M_NONE, M_REJECT = 0x0010, 0x0011, 0x0012, 0x0013
@@ -120,6 +121,13 @@ def make_service():
 
 
 def check_datagram(svc, calls, msgs, multicast, addr, ctx, replay):
+    from pv import vloop
+
+    # every other datagram is handled while the library's loggers are enabled for DEBUG
+    vloop.install_logging()
+    debug = vloop.rotate_loglevel() if replay.get("debug") is None else vloop.set_loglevel(replay["debug"])
+    replay["debug"] = debug
+    ctx.count("datagrams_handled_with_debug_logging_on" if debug else "datagrams_handled_with_debug_logging_off")
     tr = svc.transport
     tr.sent.clear()
     calls.clear()
